@@ -279,7 +279,7 @@ struct Answer {
 }
 
 fn build_files(root: &Path, flags: &str) -> Files {
-    let mut f = Files::new("/", root);
+    let mut f = Files::new(if flags.contains('m') { "/s" } else { "/" }, root);
     for c in flags.chars() {
         f = match c {
             'h' => f.use_hidden_files(),
@@ -936,6 +936,23 @@ fn gen(ctx: &Ctx) -> Vec<String> {
         let flags = flags_pick(&mut rng, &['h', 'i', 'l', 's']);
         let m = if rng.chance(1, 12) { *rng.pick(&["HEAD", "POST", "PUT", "DELETE"]) } else { "GET" };
         cases.push(s_case(&flags, m, &u, ""));
+    }
+    // mounted below "/s": the unprocessed tail is what parse_path sees
+    for _ in 0..ctx.budget(400) {
+        let n = rng.range(0, 5);
+        let mut u = String::from(*rng.pick(&["/s", "/s/", "/s/", "/s/", "/sx", "/", "/s%2f", "/%73/", "/S/", "/s//", "/s/../s/"]));
+        for _ in 0..n {
+            u.push_str(*rng.pick(S_TOKENS));
+            if rng.chance(1, 2) {
+                u.push('/');
+            }
+        }
+        let mut flags = flags_pick(&mut rng, &['h', 'i', 'l']);
+        if flags == "-" {
+            flags.clear();
+        }
+        flags.push('m');
+        cases.push(s_case(&flags, "GET", &u, ""));
     }
     // redirect flag only with header-safe paths
     for _ in 0..ctx.budget(300) {
